@@ -1371,6 +1371,68 @@ fn run_rt_mss(v: &Value, rng: &mut StdRng, out: &mut Out) {
     out.push(json!({"e": "rt", "dec": "mss_message", "v": v, "out": o, "same": same}));
 }
 
+/// Own-encoder sweep around the varint boundaries: `encoded_len() == encode().len()` (== the
+/// length the spec computes), decode(encode(m)) == m, and the webrtc framing announces
+/// exactly the body it carries (or refuses what does not fit one frame).
+fn run_rt_mss_sweep(v: &Value, aux: &Value, out: &mut Out) {
+    let (len, n) = (v["len"].as_u64().unwrap() as usize, v["n"].as_u64().unwrap() as usize);
+    let name = |i: usize| {
+        let mut b = vec![b'/'];
+        b.extend(std::iter::repeat(b'a' + i as u8).take(len - 1));
+        dc::Protocol::try_from(&b[..]).unwrap()
+    };
+    let m = if v["kind"] == "protocol" { dc::Message::Protocol(name(0)) } else { dc::Message::Protocols((0..n).map(name).collect()) };
+    let (enclen, fits) = (aux["enclen"].as_u64().unwrap() as usize, aux["fits"].as_bool().unwrap());
+    let r = catch(|| -> Result<(), String> {
+        let mut b = BytesMut::new();
+        m.encode(&mut b).map_err(|_| "encode failed".to_string())?;
+        if b.len() != enclen || m.encoded_len() != b.len() {
+            return Err(format!("encoded_len {} / encode().len() {} / spec {}", m.encoded_len(), b.len(), enclen));
+        }
+        if dc::Message::decode(b.clone().freeze()).ok().as_ref() != Some(&m) {
+            return Err("decode(encode(m)) differs".into());
+        }
+        for header in [false, true] {
+            match dc::webrtc_encode_multistream_message(m.clone(), header) {
+                Err(_) if !fits || header => {} // does not fit one frame (with the header even less)
+                Err(_) => return Err("webrtc encoder refused a message that fits a frame".into()),
+                Ok(framed) => {
+                    let frames = frames_of(&framed);
+                    let want = if header { 2 } else { 1 };
+                    let (off, pl, announced) = *frames.last().ok_or("no frame")?;
+                    if frames.len() != want || off + pl + announced as usize != framed.len() || announced as usize != enclen {
+                        return Err(format!("frame announces {announced} for a body of {} ({} frames)", framed.len().saturating_sub(off + pl), frames.len()));
+                    }
+                    if dc::Message::decode(Bytes::copy_from_slice(&framed[off + pl..])).ok().as_ref() != Some(&m) {
+                        return Err("framed body does not decode to the message".into());
+                    }
+                    if fits {
+                        let reader = Chunked { data: framed.to_vec(), pos: 0, plan: vec![3], step: 0, pending_next: false };
+                        let mut io = dc::MessageIO::new(reader);
+                        let msgs: Vec<_> = futures::executor::block_on(async {
+                            let mut v = vec![];
+                            while let Some(x) = io.next().await {
+                                v.push(x.ok());
+                            }
+                            v
+                        });
+                        if msgs.last() != Some(&Some(m.clone())) || msgs.len() != want {
+                            return Err("MessageIO does not yield the message back".into());
+                        }
+                    }
+                }
+            }
+        }
+        Ok(())
+    });
+    let (o, same, note) = match r {
+        Err(p) => ("panic", false, p),
+        Ok(Err(w)) => ("ok", false, w),
+        Ok(Ok(())) => ("ok", true, String::new()),
+    };
+    out.push(json!({"e": "rt", "dec": "mss_sweep", "v": v, "out": o, "same": same, "note": note}));
+}
+
 fn run_rt_identify(v: &Value, rng: &mut StdRng, rig: &IdentifyRig, out: &mut Out) {
     let protocols: Vec<String> = (0..v["protocols"].as_u64().unwrap()).map(|i| format!("/proto/{i}/{}", rng.gen::<u16>())).collect();
     let listen: Vec<Multiaddr> = (0..v["listen"].as_u64().unwrap()).map(|_| rand_addr(rng, None)).collect();
@@ -1586,6 +1648,7 @@ fn work(args: &Args, out: &mut Out) {
             "pb" => {} // the plan is executed as a whole below
             "rt_kad" => (0..per.min(4)).for_each(|_| run_rt_kad(&b["c"], &mut rng, out)),
             "rt_bitswap" => run_rt_bitswap(&b["c"], &mut rng, &rt, out),
+            "rt_mss_sweep" => run_rt_mss_sweep(&b["c"], &b["aux"], out),
             "rt_mss" => (0..per.min(4)).for_each(|_| run_rt_mss(&b["c"], &mut rng, out)),
             "rt_identify" => run_rt_identify(&b["c"], &mut rng, &id_rig, out),
             other => panic!("behaviour kind {other}"),
